@@ -2,7 +2,8 @@
    lists.  Statements only; every proof is `exact <lemma of Proofs/...>`. *)
 From Coq Require Import List ZArith Arith Bool.
 From PF Require Import Lib.ListX Lib.PySlice Model.Ragged Model.RaggedSpec.
-From PF Require Import Model.RaggedRun Proofs.MntProofs Proofs.MetProofs Proofs.RaggedEntryProofs.
+From PF Require Import Model.RaggedRun Model.RaggedCat Model.RaggedStore.
+From PF Require Import Proofs.MntProofs Proofs.MetProofs Proofs.RaggedEntryProofs Proofs.RaggedStoreSelect.
 Import ListNotations.
 
 Section C05.
@@ -208,6 +209,24 @@ Section C05.
     narrow A _ (met_kernels A) (met_of_cells ws m) dim start len =
     Some (met_of_cells (pick_ws dim [] ws) (pick dim [] m)).
   Proof. exact (met_narrow_nonpositive_proof A). Qed.
+
+  (* ------------------------------------------------------------------ *)
+  (* "No selection modifies its source", and what is a view.  Store level
+     (Model/RaggedStore.v: the values of an object are a window of a numbered
+     storage; n_place says where a selection puts its result - the same object,
+     a VIEW of the source's storage (an integer row, a contiguous row slice) or a
+     fresh storage - and is compared with the library's data pointers on every
+     run by the C06 store programs).  For every index expression on either axis:
+     the returned object reads back as exactly the pure selection result, every
+     object that existed before reads the same afterwards, and the store is
+     unchanged or extended by one fresh storage - a selection never writes. *)
+  Theorem mnt_select_store_sound : forall (st st' : list (list A)) (h r : hmnt) (t : mnt A) (ix : index) (dim : nat),
+    dim < 2 -> n_read A st h = Some t -> mnt_valid t ->
+    n_select A st h ix dim = Some (st', r) ->
+    n_read A st' r = select A _ (mnt_kernels A) t ix dim
+    /\ (forall h0, n_buf h0 < length st -> n_read A st' h0 = n_read A st h0)
+    /\ (st' = st \/ exists b, st' = st ++ [b]).
+  Proof. exact (mnt_select_store_sound_proof A). Qed.
 End C05.
 
 (* the dim argument as Python passes it: 0/-3 rows, 1/-2 columns, everything else
@@ -236,6 +255,7 @@ Print Assumptions met_narrow_refines.
 Print Assumptions narrow_whole.
 Print Assumptions mnt_narrow_nonpositive.
 Print Assumptions met_narrow_nonpositive.
+Print Assumptions mnt_select_store_sound.
 Print Assumptions normalize_dim_z_spec.
 
 (* ---------------------------------------------------------------------- *)
@@ -290,3 +310,15 @@ Example ex_narrow :
     = Some (met_of_cells [1] [[[3]];[[6]]]) /\
   narrow nat _ (mnt_kernels nat) (mnt_of_cells 2 ex_m) 0 2 (-1)%Z = Some (mnt_of_cells 2 []).
 Proof. vm_compute. repeat split. Qed.
+
+(* store level: a row slice of an object that is itself a view (non-zero start) is again a view of the same
+   storage and reads back as the pure selection; a column selection allocates; nothing existing changes *)
+Example ex_store_select :
+  let st := [[0; 0; 1; 2; 3; 4; 5; 6; 9; 9]] in
+  let h := MkHmnt 3 2 [0; 2; 3; 3; 4; 5; 6] 0 2 6 in    (* views storage 0 at [2, 8): cells [[1;2];[3]] [[];[4]] [[5];[6]] *)
+  (exists r, n_select nat st h (ISlice (Some 1%Z) None None) 0 = Some (st, r)
+             /\ n_buf r = 0 /\ n_start r = 5 /\ n_len r = 3
+             /\ n_read nat st r = Some (mnt_of_cells 2 [[[];[4]]; [[5];[6]]])) /\
+  (exists st' r, n_select nat st h (IInt 1%Z) 1 = Some (st', r) /\ st' = st ++ [[3; 4; 6]] /\ n_buf r = 1
+             /\ n_read nat st' h = n_read nat st h).
+Proof. vm_compute. split; [eexists; repeat split | eexists; eexists; repeat split]. Qed.
